@@ -9,7 +9,8 @@ package main
 //	§F  a file-scope helper name unique to the statement's position (f1, f2, …)
 //
 // Host globals visible to every program: console.log, the object o (one
-// property per pool name plus z) and one global per pool name (value "G<name>").
+// property per host name plus z) and one global (value "G<name>") per pool
+// name and for b, each only when the program mentions it.
 // Every simple statement ends in a semicolon, so no program relies on automatic
 // semicolon insertion.
 //
@@ -75,6 +76,14 @@ var catalogue = []tpl{
 	{tag: "local-and-global", cls: "local+globaluse", text: `function §F(§N) { console.log(§N, §M); } §F("p");`},
 	{tag: "catch-inside", cls: "local", text: `function §F(§N) { try { null.p; } catch (§M) { console.log(typeof §M, §N); } } §F("p");`},
 	{tag: "object-local", cls: "local", text: `function §F() { var §N = { §M: 1 }; console.log(§N.§M, §N); } §F();`},
+
+	// ── the first short names (a, b, c) are already taken by bindings the
+	// minifier never renames; the local must get a name behind all of them ──
+	{tag: "taken-arrow-params", cls: "local", text: `function §F(§N) { return [[2, 0], [1, 0]].sort((a, b) => a[§N] - b[§N]); } console.log(§F(0));`},
+	{tag: "taken-file-scope", cls: "local", text: `var b = "fb"; function §F(§N) { return [§N, typeof a, b]; } console.log(§F("p"));`},
+	{tag: "taken-catch-param", cls: "local", text: `function §F(§N) { try { null.p; } catch (b) { return [typeof a, typeof b, §N]; } } console.log(§F("p"));`},
+	{tag: "taken-three", cls: "local", text: `function §F(§N) { return [1, 2, 3].map((a, b, c) => a + b + c.length + §N); } console.log(§F(10));`},
+	{tag: "taken-globals", cls: "local+globaluse", text: `function §F(§N) { return [§N, a, b]; } console.log(§F("p"));`},
 
 	// ── a function that uses the global §N ───────────────────────────────
 	{tag: "global-in-function", cls: "globaluse", text: `function §F() { console.log(§N); } §F();`},
